@@ -91,8 +91,32 @@ func (e *h2eng) genHandler(id uint32, method string) *hplan {
 			}
 		}
 	}
+	if tp.Chance(1, 12, "h.huge_headers") {
+		// a header block (and trailer block) that does not fit one frame: HEADERS + CONTINUATION
+		for i := 0; i < 24; i++ {
+			hs = append(hs, [2]string{fmt.Sprintf("X-Big-%02d", i), bigValue(int(id)*100+i, 900)})
+		}
+		if len(p.Trailers) > 0 {
+			for i := 0; i < 24; i++ {
+				p.Trailers = append(p.Trailers, [2]string{fmt.Sprintf("X-Big-Trailer-%02d", i), bigValue(int(id)*100+50+i, 900)})
+			}
+		}
+		p.Huge = true
+	}
+	p.TrailerLines = len(p.Trailers) > 1 && tp.Chance(1, 2, "h.trailer_lines")
 	p.Hdr = hs
 	return p
+}
+
+// bigValue: n printable bytes that do not compress to nothing
+func bigValue(salt, n int) string {
+	b := make([]byte, n)
+	x := uint32(salt)*2654435761 + 12345
+	for i := range b {
+		x = x*1664525 + 1013904223
+		b[i] = "abcdefghijklmnopqrstuvwxyzABCDEFGHIJKLMNOPQRSTUVWXYZ0123456789~!#$%&*+"[x>>24%70]
+	}
+	return string(b)
 }
 
 // runResp: valid requests on 1-4 concurrent streams, generated handlers, a client with small and
@@ -164,11 +188,29 @@ func runResp(focus string) func(s *simrt.Sim) {
 			}
 			for _, id := range ids {
 				fs := e.framesOf(id)
+				if e.resetDone[id] {
+					continue
+				}
 				if len(fs) == 0 || !(fs[len(fs)-1].EndStream || fs[len(fs)-1].Type == xh2.FrameRSTStream) {
 					return false
 				}
 			}
 			return true
+		}
+		if faults && tp.Chance(1, 3, "client_reset") {
+			// the client cancels one stream in mid-response
+			victim := e.handlers[ids[tp.Draw(len(ids), "client_reset.which")]]
+			after := tp.Draw(4, "client_reset.after_frames")
+			victim.ClientReset = true
+			simrt.GoNamed("h2client.resetter", int(victim.ID), func() {
+				simrt.WaitUntil(func() bool { return len(e.framesOf(victim.ID)) >= after || e.readerDone })
+				if e.readerDone || e.streamOver(victim.ID) {
+					victim.ClientReset = e.streamOver(victim.ID) && false
+					return
+				}
+				e.s.Fault("client_rst_stream")
+				e.resetStream(victim.ID)
+			})
 		}
 		// stalled = nothing at all arrived for a long simulated while although the client kept granting
 		const quiet = 30 * time.Second
@@ -209,6 +251,10 @@ func runResp(focus string) func(s *simrt.Sim) {
 			return
 		}
 		for _, id := range ids {
+			if e.resetDone[id] {
+				s.Probe("h2_client_reset_checked")
+				continue // cancelled by the client: only "nothing after the reset" applies (checked on arrival)
+			}
 			e.checkStream(focus, e.handlers[id])
 			if s.Failed() {
 				return
